@@ -61,6 +61,15 @@ def owned_pointer_sources(fn):
         if n.get('k') == 'Decl':
             for v in n['vars']:
                 init = strip_all_casts(v.get('init')) if v.get('init') else None
+                if isinstance(init, dict) and v.get('t', '').startswith('std::unique_ptr<'):
+                    # a local smart owner: std::unique_ptr<T> owner(createObject(...) / new T)
+                    a0 = init
+                    for _ in range(3):
+                        if isinstance(a0, dict) and a0.get('k') == 'Construct' and a0.get('args'):
+                            a0 = strip_all_casts(a0['args'][0])
+                    if isinstance(a0, dict) and (a0.get('k') == 'New' or (a0.get('k') == 'Call' and a0.get('fn') == 'createObject')):
+                        out[v['id']] = (v['name'], 'unique_ptr(%s)' % ('new' if a0.get('k') == 'New' else 'createObject()'))
+                    continue
                 if not v.get('t', '').endswith('*') or not isinstance(init, dict):
                     continue
                 if init.get('k') == 'New':
@@ -94,6 +103,11 @@ def ownership_event(e, vid, aliases=()):
         return 'use', 'alias ' + str(n.get('name'))
     if e['ev'] == 'delete' and local_id(n.get('sub')) == vid:
         return 'sink', 'delete'
+    if e['ev'] == 'delete' and aliases and local_id(n.get('sub')) in aliases:
+        return 'sink', 'delete through the alias ' + str((strip_all_casts(n.get('sub')) or {}).get('name'))
+    if e['ev'] == 'call' and n.get('k') == 'Call' and n.get('fn') in ('release', 'reset') and n.get('obj') is not None and local_id(n.get('obj')) == vid and \
+            (n.get('cls') or '').startswith('std::unique_ptr'):
+        return 'sink', 'owner.%s()' % n['fn']
     if e['ev'] == 'return' and n.get('value') is not None and local_id(n['value']) == vid:
         return 'sink', 'return'
     if e['ev'] == 'call' and n.get('k') == 'Call':
@@ -105,7 +119,10 @@ def ownership_event(e, vid, aliases=()):
             return 'sink', 'storage.push'
         if n.get('obj') is not None and local_id(n.get('obj')) == vid:
             return 'use', n.get('fn')
-        if any(uses_local(a, vid) for a in n.get('args', [])):
+        def _only_released(a_):
+            x = strip_all_casts(a_)
+            return isinstance(x, dict) and x.get('k') == 'Call' and x.get('fn') == 'release' and x.get('obj') is not None and local_id(x['obj']) == vid
+        if any(uses_local(a, vid) and not _only_released(a) for a in n.get('args', [])):
             return 'use', 'arg of ' + str(n.get('fn'))
     if e['ev'] == 'use' and n.get('k') == 'Member':
         b = n.get('base')
@@ -142,9 +159,10 @@ def O1O2(F, rep, FL, fnames, rules=('O1', 'O2')):
                 for i in range(start, len(evs)):
                     e = evs[i]
                     if e['ev'] == 'branch':
-                        t = is_null_test(e['n'], vid)
-                        if t is not None and (t == e['taken']):
-                            null_path = True
+                        for v_ in [vid] + sorted(al):
+                            t = is_null_test(e['n'], v_)
+                            if t is not None and (t == e['taken']):
+                                null_path = True
                     if e['ev'] == 'decl' and e['var']['id'] in al:
                         continue   # binding the alias is not a use after the sink (it happens before)
                     oe = ownership_event(e, vid, al)
@@ -159,8 +177,9 @@ def O1O2(F, rep, FL, fnames, rules=('O1', 'O2')):
                         bad_o1 = (oe[1], e.get('l'), sinks[-1], evs)
                 if null_path:
                     continue
-                if src == 'createObject()' and not sinks and out in ('normal', 'return'):
-                    pass
+                if src.startswith('unique_ptr(') and not any(s_[1].startswith('owner.') for s_ in sinks):
+                    # still owning when the scope is left (normally or by an exception): the smart pointer deletes the object
+                    sinks.append((len(evs), 'delete by ~unique_ptr at scope exit', None))
                 if len(sinks) != 1 and bad_o2 is None:
                     bad_o2 = (len(sinks), out, evs, [s[1] for s in sinks])
             if 'O1' in rules:
@@ -464,8 +483,21 @@ def C1(F, rep, FL):
         if not passed:
             continue
         n += 1
+        # the same object under its other names: raw aliases, and the smart owner it was taken from (T * obj = owner.get())
+        same = {vid} | set(aliases_of(fn, vid))
+        for e_ in evs:
+            if e_['ev'] == 'decl' and e_['var']['id'] == vid and e_['var'].get('init') is not None:
+                i_ = strip_all_casts(e_['var']['init'])
+                if isinstance(i_, dict) and i_.get('k') == 'Call' and i_.get('fn') == 'get' and i_.get('obj') is not None and local_id(i_['obj']) is not None:
+                    same.add(local_id(i_['obj']))
+
+        def _is_obj(a_):
+            if local_id(a_) in same:
+                return True
+            x_ = strip_all_casts(a_)
+            return isinstance(x_, dict) and x_.get('k') == 'Call' and x_.get('fn') == 'release' and x_.get('obj') is not None and local_id(x_['obj']) in same
         commit = [e for e in evs[passed[0]:] if e['ev'] == 'call' and e['n'].get('fn') == 'write' and recv_root(e['n']) == 'm_readWriteQueue' and
-                  any(local_id(a) == vid for a in e['n'].get('args', []))]
+                  any(_is_obj(a) for a in e['n'].get('args', []))]
         if not commit and out in ('normal', 'return'):
             bad = evs
             break
@@ -920,8 +952,7 @@ def H4(F, rep):
                        'fileStatistics.%s (%d bytes) is taken from %s (%s, %d bytes)' % (t, sw[t][0], sname, fw[sname][1], fw[sname][0]) if ok else
                        'fileStatistics.%s (%d bytes) is taken from the running counter %s, which is only %d bytes wide (%s): the total wraps for logs '
                        'beyond 2^%d while every shorter log is unaffected' % (t, sw[t][0], sname, fw[sname][0], fw[sname][1], 8 * fw[sname][0]), nontrivial=True)
-    if seen < 2:
-        raise AnalysisBroken('H4: expected the two running counters to be stored into the header, found %d such assignments' % seen)
+    # (fewer than two such assignments is left to the floor of H4: H2 reports a total that is taken from somewhere else)
 
 
 def _stat_target(n):
@@ -2217,10 +2248,11 @@ def P4(F, rep, FL):
 def DN(F, rep, FL):
     fn = F.fn(U2Q)
     rep.count('DN')
-    owned = {vid: nm for vid, (nm, src) in owned_pointer_sources(fn).items() if src == 'createObject()'}
+    owned = {vid: nm for vid, (nm, src) in owned_pointer_sources(fn).items() if 'createObject()' in src}
     bad = None
     for evs, out in FL.paths(fn, follow=()):
         for vid in owned:
+            al = aliases_of(fn, vid)     # T * obj = owner.get();  the null test and the dereferences go through the alias
             checked = False
             started = False
             for e in evs:
@@ -2229,10 +2261,16 @@ def DN(F, rep, FL):
                     continue
                 if not started:
                     continue
-                if e['ev'] == 'branch' and is_null_test(e['n'], vid) is not None:
+                if e['ev'] == 'decl' and e['var']['id'] in al:
+                    continue
+                if e['ev'] == 'branch' and any(is_null_test(e['n'], v_) is not None or _ptr_null_test(e['n'], v_) is not None for v_ in [vid] + sorted(al)):
                     checked = True
-                oe = ownership_event(e, vid)
-                if oe and oe[0] == 'use' and not checked:
+                n_ = e.get('n') or {}
+                ids = {vid} | set(al)
+                deref = (e['ev'] == 'call' and n_.get('obj') is not None and local_id(n_.get('obj')) in ids and
+                         n_.get('fn') not in ('get', 'release', 'reset', 'operator bool', 'swap')) or \
+                    (e['ev'] == 'use' and n_.get('k') == 'Member' and n_.get('base') is not None and local_id(n_.get('base')) in ids)
+                if deref and not checked:
                     bad = (owned[vid], e.get('l'))
     rep.ob('DN', 'createObject|null-check', bad is None and bool(owned), rep.fn_site(fn, bad[1] if bad else None),
            'the result of createObject() is dereferenced only after a null check' if bad is None else
